@@ -51,8 +51,12 @@ def run(data):
                 units.append(Dimension._by_name[op[1]].unit(f"vfm{n}", f"vfm{n}"))
                 out.append(None)
             elif k == "equals":
-                _, i, ei, r, j, ej = op
-                (units[i] ** ei if ei != 1 else units[i]).equals(mk_num(r) * (units[j] ** ej if ej != 1 else units[j]))
+                _, i, ei, r, j, ej = op[:6]
+                ua_, ub_ = (units[i] ** ei if ei != 1 else units[i]), (units[j] ** ej if ej != 1 else units[j])
+                if len(op) > 6 and op[6] == "module":
+                    conversions.equate(1 * ua_, mk_num(r) * ub_)          # the module-level entry point Unit.equals itself calls
+                else:
+                    ua_.equals(mk_num(r) * ub_)
                 out.append(None)
             else:
                 _, what, m, i, e, j, f = op
